@@ -88,8 +88,13 @@ class VLoop(asyncio.BaseEventLoop):
     async def create_datagram_endpoint(self, protocol_factory, local_addr=None, remote_addr=None, **kwargs):
         return await self.net.datagram_endpoint(protocol_factory, local_addr, remote_addr)
 
-    async def getaddrinfo(self, host, port, **kwargs):
-        raise OSError("no DNS in the simulation")
+    async def getaddrinfo(self, host, port, *, family=0, type=0, proto=0, flags=0):
+        """The simulation's resolver: numeric addresses and the names registered in SimNet.dns."""
+        import socket as _s
+        ip = self.net.resolve(host)
+        if ip is None:
+            raise _s.gaierror(-2, "Name or service not known")
+        return [(_s.AF_INET, type or _s.SOCK_STREAM, proto, "", (ip, port or 0))]
 
     # --- driving -------------------------------------------------------
     def drain(self, horizon: float = 0.0) -> None:
@@ -337,14 +342,25 @@ class SimNet:
         self.udp: list[SimUdp] = []
         self.udp_responder: Optional[Callable] = None
         # decides accept/refuse/hang for a connect attempt; default accept if a listener exists
+        self.dns: dict[str, str] = {}
         self.connect_policy: Optional[Callable[[str, int, int], str]] = None
         self.connect_latency = 0.004
 
     def listen(self, host: str, port: int, peer) -> None:
         self.listeners[(host, port)] = peer
 
+    def resolve(self, host) -> Optional[str]:
+        host = host.decode() if isinstance(host, bytes) else str(host)
+        if host in getattr(self, "dns", {}):
+            return self.dns[host]
+        parts = host.split(".")
+        if len(parts) == 4 and all(p.isdigit() and int(p) < 256 for p in parts):
+            return host
+        return None
+
     async def connect(self, protocol_factory, host, port):
         n = len(self.connect_attempts)
+        host = self.resolve(host) or host
         peer = self.listeners.get((host, port))
         verdict = self.ACCEPT if peer is not None else self.REFUSE
         if self.connect_policy is not None:
